@@ -11,7 +11,7 @@
 //	apply trace    verifApplyTrace(<recv>, <arg2>, <arg3>, <arg4>)   arguments copied from the anchor call itself
 //	entry hooks    verifRestoreTrace(<recv>, "<kind>", <expr>)  first statement of a function
 //	fdatasync      verifFdatasynced(<file>)                     after the real fdatasync of the WAL tail (C05)
-//	trigger gap    verifTriggerGap(id, rd != nil)               after w.l.Unlock() of wait.Trigger (C04, protocol waittable)
+//	trigger gap    verifTriggerGap(id, rd != nil)               before the `if rd != nil` of wait.Trigger: between its delete and its store + signal (C04, protocol waittable)
 //
 // Output: <out>/<pkg>/<file>.go for every file with at least one insertion, <out>/<pkg>/verif_crash_gen.go
 // (the per-package verifCrash), <out>/node/verif_points_gen.go (found / missing lists, read by the harness) and
@@ -124,10 +124,11 @@ var points = []point{
 	{"node/node.go", "KVNode.applyEntry", "nd.sm.ApplyRaftRequest", 1, "before", "trace:apply"},
 	{"node/node.go", "KVNode.RestoreFromSnapshot", "", 0, "entry", "trace:restore"},
 	{"node/node.go", "KVNode.CleanData", "", 0, "entry", "trace:clean"},
-	// protocol waittable (C04): the window of wait.Trigger between its two parts (registration deleted and lock dropped,
-	// result not stored / channel not signalled yet); hook in harness/overlay/pkg/wait
-	// (disabled since fix 184e1b3 made Trigger atomic: there is no window behind w.l.Unlock() any more; the waittable protocol is being adapted)
-	// {"pkg/wait/wait.go", "multList.Trigger", "w.l.Unlock", 1, "after", "trace:triggergap"},
+	// protocol waittable (C04): the point of wait.Trigger between its two parts (registration deleted, result not stored /
+	// channel not signalled yet), i.e. right before its top-level `if rd != nil`. Since fix 184e1b3 the lock is HELD there
+	// (defer w.l.Unlock()); before the fix it had been dropped. The protocol stops a Trigger there and probes the lock.
+	// Hook in harness/overlay/pkg/wait
+	{"pkg/wait/wait.go", "multList.Trigger", "", 0, "before", "trace:triggergap"},
 }
 
 func exprString(fset *token.FileSet, e ast.Node) string {
@@ -384,6 +385,17 @@ func main() {
 				ins = append(ins, insertion{fset.Position(fd.Body.Lbrace).Offset + 1, " " + text + ";"})
 				foundNames = append(foundNames, p.Name)
 				continue
+			case p.Name == "trace:triggergap":
+				for _, st := range fd.Body.List {
+					if x, ok := st.(*ast.IfStmt); ok && exprString(fset, x.Cond) == "rd != nil" {
+						at = st
+					}
+				}
+				if at == nil {
+					miss(p, "no top-level `if rd != nil` in "+p.Fn)
+					continue
+				}
+				text = "verifTriggerGap(id, rd != nil)"
 			default:
 				cs := calls(fset, fd.Body, p.Callee)
 				if len(cs) < p.Occ {
@@ -399,8 +411,6 @@ func main() {
 					}
 					text = fmt.Sprintf("verifApplyTrace(%s, %s, %s, %s)", recv, exprString(fset, c.call.Args[2]),
 						exprString(fset, c.call.Args[3]), exprString(fset, c.call.Args[4]))
-				} else if p.Name == "trace:triggergap" {
-					text = "verifTriggerGap(id, rd != nil)"
 				} else if p.Name == "trace:fdatasync" {
 					if len(c.call.Args) != 1 {
 						miss(p, "anchor call does not have one argument")
